@@ -90,6 +90,8 @@ def run(rep):
                        "'T1 to T2' is only specified when neither wall - offset leaves the day (one reading only)", "process time zone fixed to UTC", "TLC 1.8.0"]
     r = tlc_must_pass("MC_Clock", "MC_Clock", workers=8, timeout=900)
     rep.add_tlc("MC_Clock", r)
+    import apalache
+    apalache.prove(rep, ['ClockLemma'] if quick else ['ClockLemma'])
     g = tlc("Gen_Clock", "Gen_Clock" if quick else "Gen_Clock_thorough", workers=8, timeout=2400, env={"ZONES": zpath}, heap="8g")
     if not g.ok:
         raise ToolError("Gen_Clock failed: %s" % (g.violated or g.error))
